@@ -174,7 +174,7 @@ theorem noGuard_planStep (env : Env) : NoGuard (planStep env) :=
 /-- everything `update()` / `react()` does before `processRequest` -/
 def prelude (env : Env) (pre mid post : Method) : Step :=
   modify (fun s => { s with ts := .none }) ⋙
-  phase env pre true ⋙ phase env mid true ⋙ phase env post false ⋙
+  phase env pre (headFirst pre) ⋙ phase env mid (headFirst mid) ⋙ phase env post (headFirst post) ⋙
   (if env.cfg.plans then planStep env else skip)
 
 theorem cycle_eq (env : Env) (pre mid post : Method) : cycle env pre mid post = prelude env pre mid post ⋙ processRequest env := rfl
